@@ -514,14 +514,14 @@ GENERIC = {
         parts=[("rulesets", "base", 240, 3600, 20, SMALL, BIG), ("recover", "base", 120, 1600, 20, SMALL, BIG), ("eoi", "base", 100, 1600, 20, SMALL, BIG)],
     ),
     "C04": dict(
-        rule="rules with right contexts of every operator shape (multi-character literals, sets, repetition, nullable, `$`, class differences, built-ins) at every priority position, mixed with context-free rules; the eoimid family adds contexts in which `$` repeats, sits under `*` / `+` or is followed by further factors. Non-trivial = distinct (definition, input) pairs in which at least one context evaluation failed and at least one succeeded.",
+        rule="rules with right contexts of every operator shape (multi-character literals, sets, repetition, nullable, `$`, class differences, built-ins) at every priority position, mixed with context-free rules; the eoictx family adds contexts in which `$` repeats, sits under `*` / `+` or is followed by further factors. Non-trivial = distinct (definition, input) pairs in which at least one context evaluation failed and at least one succeeded.",
         nt="nt_C04",
-        parts=[("rctx", "base", 320, 4800, 20, SMALL, BIG), ("scope", "base", 60, 800, 20, SMALL, BIG), ("eoimid", "base", 100, 1600, 20, SMALL, BIG)],
+        parts=[("rctx", "base", 320, 4800, 20, SMALL, BIG), ("scope", "base", 60, 800, 20, SMALL, BIG), ("eoictx", "base", 120, 1600, 20, SMALL, BIG)],
     ),
     "C05": dict(
-        rule="definitions with `$` rules in Init / other rule sets / contexts and rules that only complete at end of input, and (eoimid family) rules whose `$` is followed by further factors, nullable or not; all strings up to a bound (so the input ends at every point). Model-free monitors: fused stream (3 extra next() calls after None), conservation (no character skipped without match or error). Non-trivial = distinct (definition, input) pairs ending outside Init, inside a lexeme, after a rewind, or through a `$` rule.",
+        rule="definitions with `$` rules in Init / other rule sets / contexts and rules that only complete at end of input; all strings up to a bound (so the input ends at every point). Model-free monitors: fused stream (3 extra next() calls after None), conservation (no character skipped without match or error). Non-trivial = distinct (definition, input) pairs ending outside Init, inside a lexeme, after a rewind, or through a `$` rule.",
         nt="nt_C05",
-        parts=[("eoi", "base", 320, 4800, 20, SMALL, BIG), ("eoimid", "base", 160, 2400, 20, SMALL, BIG)],
+        parts=[("eoi", "base", 320, 4800, 20, SMALL, BIG)],
     ),
     "C06": dict(
         rule="definitions over an alphabet mixing ASCII, LF, TAB, 2-4 byte, double-width and zero-width characters; every Loc in tokens, errors and action logs is rescanned from the beginning of the input (model-free oracle), spans ordered and on char boundaries, input[start..end] == match_(). Non-trivial = distinct (definition, input) pairs with a rewind across a non-ASCII/TAB/LF character.",
@@ -539,11 +539,11 @@ GENERIC = {
         parts=[("recover", "base", 320, 4800, 20, SMALL, BIG)],
     ),
     "C09": dict(
-        rule="all constructors incl. a counting iterator; monitors: panics (catch_unwind), items <= n+1, actions <= n+1, read budget, CPU watchdog; inputs include stress strings of 3k (quick) / 10k (thorough) characters, ten times that for the all-unlexable input (one repeated character, only unlexable characters, long near-matches). Non-trivial = distinct (definition, input) pairs with n >= 1000, a rewind, or an error at the end.",
+        rule="all constructors incl. a counting iterator; monitors: panics (catch_unwind), items <= n+1, actions <= n+1, read budget, CPU watchdog; inputs include scalar values no definition mentions (U+0000, U+007F/80, both sides of the surrogate gap, U+FFFF/10000, U+EFFFF/F0000, U+10FFFF) alone and after short prefixes, definitions whose classes compile to binary-search tables (bigclass family), stress strings of 3k (quick) / 10k (thorough) characters, ten times that for the all-unlexable input (one repeated character, only unlexable characters, long near-matches). Non-trivial = distinct (definition, input) pairs with n >= 1000, a rewind, or an error at the end.",
         nt="nt_C09",
-        parts=[("progress", "base", 200, 2400, 20, merged(SMALL, VP_STRESS_N=3000, VP_CTORS=1), merged(BIG, VP_STRESS_N=10000, VP_CTORS=1)),
-               ("mixed", "base", 120, 2400, 20, merged(SMALL, VP_CTORS=1), merged(BIG, VP_CTORS=1)),
-               ("eoimid", "base", 80, 1600, 20, merged(SMALL, VP_CTORS=1), merged(BIG, VP_CTORS=1))],
+        parts=[("progress", "base", 200, 2400, 20, merged(SMALL, VP_STRESS_N=3000, VP_CTORS=1, VP_HOSTILE=1), merged(BIG, VP_STRESS_N=10000, VP_CTORS=1, VP_HOSTILE=1)),
+               ("mixed", "base", 120, 2400, 20, merged(SMALL, VP_CTORS=1, VP_HOSTILE=1), merged(BIG, VP_CTORS=1, VP_HOSTILE=1)),
+               ("bigclass", "base", 40, 600, 10, merged(SMALL, VP_HOSTILE=1), merged(BIG, VP_HOSTILE=1))],
     ),
     "C10": dict(
         rule="definitions with every assignment of action kinds (skip, simple, return, continue with/without reset, switch, switch-and-return, fallible ok/err) under guards on peek/length/counter; oracle: reference lexer on the full action log (match_loc, match_, peek, counter, match after reset) and items; metamorphic: sugar forms vs their documented desugaring. Non-trivial = distinct (definition, input) pairs whose action history has length >= 3 and >= 2 different kinds.",
@@ -634,10 +634,25 @@ def finish_generic(eng, res, cfg, prop, extra_props=()):
     if cf:
         res.extra["not_compiling_samples"] = [{"definition": x["definition"], "what": x["what"][:300]} for x in cf[:5]]
     for m in eng.stuck:
+        fl = [x for x in m.get("in_flight", []) if x.get("spec")]
+        if prop == "C04":
+            # a call that never returns while evaluating a definition with right contexts: the
+            # candidate whose context fails is not "treated as if the rule had not matched"
+            # (lower-priority rules are never considered). Only where every execution in flight
+            # belongs to a context-carrying definition of a context family.
+            from vprops import has_ctx
+            if fl and all(x.get("family") in ("eoictx", "rctx") and has_ctx(x["spec"]) for x in fl):
+                for x in fl:
+                    v = dict(x)
+                    v.update({"what": "next() did not return while a right context was being evaluated: no progress event within %s CPU-s (%d execution(s) in flight)" % (m.get("cpu_s"), len(fl)),
+                              "input_shown": json.dumps("".join(chr(c) for c in x.get("input", []))),
+                              "observed": "no return from next() (watchdog)", "expected": "the context fails or passes; lower-priority rules and shorter matches are then considered",
+                              "stuck_batch": m.get("batch"), "property": "C04"})
+                    res.violations.append(v)
+                continue
         if prop != "C09":
             res.inconclusive.append("a batch made no progress: %s" % m.get("cases"))
             continue
-        fl = [x for x in m.get("in_flight", []) if x.get("spec")]
         if not fl:
             res.violations.append({"what": "no progress event within the CPU budget (%s CPU-s) while running %s" % (m.get("cpu_s"), m.get("cases")),
                                    "family": "?", "index": -1, "stuck": m})
